@@ -19,8 +19,8 @@ import (
 	"encoding/json"
 	"fmt"
 	"io"
-	"log/slog"
 	"io/fs"
+	"log/slog"
 	"net/http"
 	"net/http/httptest"
 	"net/url"
@@ -64,8 +64,9 @@ type aConf struct {
 	DebugLog   bool     `json:"debuglog"`  // a logger that formats every record (debug level) and throws the text away
 	PageExpMS  int64    `json:"pageexp_ms"`
 	PageLimit  int      `json:"pagelimit"`
-	Root       string   `json:"root"` // sub-directory name under the case directory ("" = "root")
-	Cwd        bool     `json:"cwd"`  // run the case with the root directory as the working directory of the process
+	Root       string   `json:"root"`      // sub-directory name under the case directory ("" = "root")
+	Cwd        bool     `json:"cwd"`       // run the case with the root directory as the working directory of the process
+	TmpInCase  bool     `json:"tmpincase"` // TMPDIR of the process points to <case directory>/tmpdir (next to the root), which the case snapshots see
 }
 
 type aFile struct {
@@ -153,12 +154,18 @@ func (r *hookRepo) IndexInsert(d types.Descriptor, opts ...types.IndexOpt) error
 	r.h.point("IndexInsert")
 	return r.Repo.IndexInsert(d, opts...)
 }
-func (r *hookRepo) IndexRemove(d types.Descriptor) error { r.h.point("IndexRemove"); return r.Repo.IndexRemove(d) }
+func (r *hookRepo) IndexRemove(d types.Descriptor) error {
+	r.h.point("IndexRemove")
+	return r.Repo.IndexRemove(d)
+}
 func (r *hookRepo) BlobGet(d digest.Digest) (io.ReadSeekCloser, error) {
 	r.h.point("BlobGet")
 	return r.Repo.BlobGet(d)
 }
-func (r *hookRepo) BlobDelete(d digest.Digest) error { r.h.point("BlobDelete"); return r.Repo.BlobDelete(d) }
+func (r *hookRepo) BlobDelete(d digest.Digest) error {
+	r.h.point("BlobDelete")
+	return r.Repo.BlobDelete(d)
+}
 func (r *hookRepo) BlobCreate(opts ...store.BlobOpt) (store.BlobCreator, string, error) {
 	r.h.point("BlobCreate")
 	bc, id, err := r.Repo.BlobCreate(opts...)
@@ -182,9 +189,13 @@ type hookBC struct {
 	h *hookStore
 }
 
-func (b *hookBC) Close() error                 { b.h.point("bc.Close"); return b.BlobCreator.Close() }
-func (b *hookBC) Cancel() error                { b.h.point("bc.Cancel"); return b.BlobCreator.Cancel() }
-func (b *hookBC) Verify(d digest.Digest) error { b.h.point("bc.Verify"); return b.BlobCreator.Verify(d) }
+func (b *hookBC) Write(p []byte) (int, error) { b.h.point("bc.Write"); return b.BlobCreator.Write(p) }
+func (b *hookBC) Close() error                { b.h.point("bc.Close"); return b.BlobCreator.Close() }
+func (b *hookBC) Cancel() error               { b.h.point("bc.Cancel"); return b.BlobCreator.Cancel() }
+func (b *hookBC) Verify(d digest.Digest) error {
+	b.h.point("bc.Verify")
+	return b.BlobCreator.Verify(d)
+}
 
 // splitReader delivers data[:split], then runs fn (other requests, while the handler
 // of this request is waiting for more body), then delivers the rest.
@@ -1094,6 +1105,20 @@ func runCase(c aCase, work string) (out aOut) {
 	if err := writeFiles(e.rootDir(), c.Seed); err != nil {
 		out.Fatal = err.Error()
 		return out
+	}
+	if c.Conf.TmpInCase {
+		// (cases of one process run one after the other)
+		if abs, err := filepath.Abs(filepath.Join(dir, "tmpdir")); err == nil && os.MkdirAll(abs, 0o755) == nil {
+			old, had := os.LookupEnv("TMPDIR")
+			_ = os.Setenv("TMPDIR", abs)
+			defer func() {
+				if had {
+					_ = os.Setenv("TMPDIR", old)
+				} else {
+					_ = os.Unsetenv("TMPDIR")
+				}
+			}()
+		}
 	}
 	if c.Conf.Cwd {
 		// (cases of one process run one after the other)
